@@ -186,7 +186,7 @@ def zeros( shape, dtype=float, order = 'C'):
 
     elif isinstance(dtype, UTPM):
         D,P = dtype.data.shape[:2]
-        tmp = numpy.zeros((D,P) + shape ,dtype = dtype.data.dtype)
+        tmp = numpy.zeros((D,P) + tuple(shape) ,dtype = dtype.data.dtype)
         tmp*= dtype.data.flatten()[0]
         return dtype.__class__(tmp)
 
@@ -215,7 +215,7 @@ def ones( shape, dtype=float, order = 'C'):
 
     elif isinstance(dtype, UTPM):
         D,P = dtype.data.shape[:2]
-        tmp = numpy.zeros((D,P) + shape ,dtype = dtype.data.dtype)
+        tmp = numpy.zeros((D,P) + tuple(shape) ,dtype = dtype.data.dtype)
         tmp[0,...] = 1.
         return UTPM(tmp)
 
